@@ -42,7 +42,9 @@ RULE += (' ' +
          'angles and fixed-point values as Fraction and Decimal. Round 15: '
          'codec calls run with warnings escalated to errors. Round 16: '
          'off-grid fixed-point values inside the last partial quantum at '
-         'either end of the range. ')
+         'either end of the range. Final sweep: look-alike texts with one '
+         "control / whitespace character at either end ('a\\r', '\\ra', "
+         "'a\\x00', ...). ")
 LEVEL_TEXT = ('Differential testing of every primitive wire type against an '
               'independent reference codec in both directions, exhaustive '
               'for all 8/16-bit types, booleans and angle bytes, sampled '
@@ -621,6 +623,9 @@ LOOKALIKES = [
     'MC|Brand', 'REGISTER', 'UNREGISTER', 'BungeeCord', 'MC|BEdit',
     'FML|HS', 'minecraft:brand', 'minecraft:register', 'bungeecord:main',
     'minecraft:overworld', 'default', 'flat', 'vanilla', 'en_US', 'en_us',
+    # one control / whitespace character at either end (what a terminal or a
+    # config file leaves behind): carried as given
+    'a\r', 'a\n', '\ra', 'a\x00', 'a\u2028', 'a ', '\r',
 ]
 
 SPECIAL_CHARS = ['\ufeff', '\x00', '\ufffd', '\u2028', '\u2029', '\x85',
